@@ -1,8 +1,8 @@
 CONSTANTS WholeRules <- Whole
           PatternRules <- Pattern
-          Docs <- DocsC
+          Docs <- DocsGlue
           Cap = 2
-          KeyHasTokens = FALSE
+          KeyHasTokens = TRUE
           MaxOps = 4
           Peeking <- NoRules
 INIT LGInit
